@@ -28,8 +28,8 @@ PROP = {
         "C06-F3 schedules (drain while a verdicted request's clean-up is held) are never executed in-process: counted and excluded when the finding is listed, executed in an isolated child copy of the test binary when it is not; the witness is confirmed in a child on every run",
     ],
     "units": [
-        dict({"pkg": "c06", "test": "TestQueueSchedules", "quick": 2000, "thorough": 6000, "shards": 16}, **_CRASH),
-        dict({"pkg": "c06", "test": "TestTTLRealClock", "quick": 10, "thorough": 40, "shards": 16, "shrinktime": "60s"}, **_CRASH),
+        dict({"pkg": "c06", "test": "TestQueueSchedules", "quick": 2000, "thorough": 20000, "shards": 16}, **_CRASH),
+        dict({"pkg": "c06", "test": "TestTTLRealClock", "quick": 10, "thorough": 100, "shards": 16, "shrinktime": "60s"}, **_CRASH),
         dict({"pkg": "c06", "test": "TestWitnessEqualPriorityInversion", "kind": "plain"}, **_CRASH),
         dict({"pkg": "c06", "test": "TestWitnessSlotCheckNotAtomic", "kind": "plain"}, **_CRASH),
         dict({"pkg": "c06", "test": "TestWitnessShutdownSignalsTwice", "kind": "plain"}, **_CRASH),
